@@ -13,7 +13,7 @@ sys.path.insert(0, os.path.dirname(os.path.abspath(__file__)))
 from fractions import Fraction as F
 import gen_cases as G
 from gen_cases import Rng, hexd, unhex, PARAM0
-import gen_lean, gen_rates, effects, runner, build_harness, oracles, props
+import gen_lean, gen_rates, effects, specials, runner, build_harness, oracles, props
 
 VERIF = os.path.dirname(os.path.dirname(os.path.abspath(__file__)))
 LEAN = os.path.join(VERIF, "lean")
@@ -163,6 +163,21 @@ def main():
         except effects.EffectsError as e:
             effects_err = str(e)
 
+    # member-wise completeness of the user-provided copy / move special member functions (C17): regenerated likewise
+    static_broken = []
+    if pid == "C17":
+        try:
+            sres, snote = specials.write()
+            if snote:
+                notes.append("special members: JIT probe not analysed: " + snote[:200])
+            for (cls, kind), v in sorted(sres.items()):
+                for f, st in v["rows"]:
+                    if st not in ("same", "base-call"):
+                        static_broken.append(f"{cls}::{kind} ({effects.rel(v['where'][0])}:{v['where'][1]}) does not transfer member {f} from the same member of "
+                                             f"its source unconditionally: {st} (theorem Micm.C17_special_members_memberwise)")
+        except effects.EffectsError as e:
+            effects_err = str(e)
+
     # 2. proofs
     obl = {"ok": False, "theorems": [], "errors": []}
     if trans_err:
@@ -176,7 +191,7 @@ def main():
         obl["errors"].append("translator (rate-constant formulas): " + rates_err)
     if effects_err:
         obl["ok"] = False
-        obl["errors"].append("translator (shared-storage effects of the solver entry points): " + effects_err)
+        obl["errors"].append("translator (clang AST: shared-storage effects / special member functions): " + effects_err)
     broken_obligation = not obl["ok"]
 
     # 3. harness + cases
@@ -288,7 +303,7 @@ def main():
     for kid, n in known_hits.items():
         kf = next(k for k in known if k["id"] == kid)
         out_lines.append(f"KNOWN-FINDING: property={pid} {kf['what']} ({n} cases)")
-    if exit_code == 0 and (broken_obligation or corr_breaks or harness_err or special_broken):
+    if exit_code == 0 and (broken_obligation or corr_breaks or harness_err or special_broken or static_broken):
         # no failing input found by the oracles: still a violation — the property is no longer shown to hold
         what = []
         if broken_obligation:
@@ -296,6 +311,7 @@ def main():
         if harness_err:
             what.append(harness_err)
         what += special_broken
+        what += static_broken
         first = None
         if corr_breaks:
             i, c = corr_breaks[0]
